@@ -205,27 +205,7 @@ def run(chk):
                               dict(length=L, route=route, step=step, layouts=hist, signed=signed, data=data),
                               want.hex() if isinstance(want, bytes) else want, enc.hex() if isinstance(enc, bytes) else enc)
                 break
-    # overlapping layouts (tie only): precedence of the little array over the big array, later over earlier
-    for _ in range(200 if not thorough else 2000):
-        L = rng.choice([1, 2, 3, 8])
-        fr = C.Frame("f", size=L)
-        sigs = []
-        for i in range(rng.randrange(2, 5)):
-            w = rng.randrange(1, min(8 * L, 20) + 1)
-            s = C.Signal("s%d" % i, start_bit=rng.randrange(0, 8 * L - w + 1), size=w, is_little_endian=rng.random() < 0.5, is_signed=False)
-            fr.add_signal(s)
-            sigs.append(s)
-        triples = []
-        data = {}
-        for i, s in enumerate(sigs):
-            v = rng.randrange(0, 1 << s.size)
-            data[s.name] = v
-            triples += [i, 1, v]
-        enc = bytes(fr.encode(data))
-        chk.count("overlapping-tie-only")
-        lines.append(core.fmt_case(201, [[L], triples] + [sig_group(i, s) for i, s in enumerate(sigs)]))
-        expect.append([[1], list(enc)])
-        info.append(dict(overlapping=True, length=L, signals=[(s.start_bit, s.size, s.is_little_endian) for s in sigs], data=data))
+    # (overlapping layouts are outside the quantifier - "a frame whose signals do not overlap" - and are neither judged nor tied)
     chk.sample(dict(length=3, signals=[("m", 5, 11, False, True), ("i", 17, 7, True, False)], data={"m": -641, "i": 100}, payload="057fc8"))
 
     if not ok:
